@@ -1089,7 +1089,7 @@ func runC01R11(c *eng.Ctx, r *eng.RuleCtx) {
 			if qv, ok := eng.SelObj(info, s.X).(*types.Var); ok {
 				for _, e := range eng.AssignedExprs(info, lit.Lit.Body, qv) {
 					if ix, ok := ast.Unparen(e).(*ast.IndexExpr); ok && eng.IsField(info, ix.X, queues) {
-						if cl, ok := ast.Unparen(ix.Index).(*ast.CallExpr); ok && eng.CalleeOf(info, cl) == getQN {
+						if cl, ok := ast.Unparen(resolveLocal(info, lit.Lit.Body, ix.Index)).(*ast.CallExpr); ok && eng.CalleeOf(info, cl) == getQN {
 							if sel, ok := ast.Unparen(cl.Fun).(*ast.SelectorExpr); ok && el.IsElem(sel.X) {
 								okQueue = true
 							}
